@@ -192,6 +192,8 @@ def multi_case(draw):
                 o[d] = draw(gen.related_labels(l, kind, relation="disjoint"))[1]
             elif align and draw(st.integers(0, 3)) > 0:
                 o[d] = draw(gen.related_labels(l, kind, relation=draw(st.sampled_from(["permuted", "overlapping", "subset"]))))[1]
+            elif not align and draw(st.integers(0, 5)) == 0:
+                o[d] = [(x + "_" if isinstance(x, str) else x + 100) for x in l[:-1]] + list(l[-1:])       # same length, other labels: must be refused
         others.append(o)
     return {"mode": "multi", "file": fs, "others": others, "how": how, "cdim": cdim, "align": align, "sort": draw(st.booleans()) if align else False,
             "keys": draw(st.sampled_from([None, "str", "int"])), "names": draw(st.sampled_from([None, None, "first"]))}
@@ -208,11 +210,12 @@ def enumerate_cases(tier):
     fs = {"vars": [["v0", {"dims": ["x", "y"], "labels": [lx, ly], "vk": "f", "base": 0, "attrs": {"units": "m"}}],
                    ["v1", {"dims": ["y", "s", "x"], "labels": [ly, ls, lx], "vk": "i", "base": 30, "attrs": {}}]], "attrs": {"title": "file"}}
     rel = {"equal": {"x": lx, "y": ly, "s": ls}, "permuted": {"x": [1, 2, 3], "y": [2.5, 1.5, 0.5], "s": ["c", "a", "b"]},
-           "overlapping": {"x": [7, 2], "y": [1.5, 0.25], "s": ["d", "b"]}, "subset": {"x": [2, 3], "y": [2.5], "s": ["a"]}}
+           "overlapping": {"x": [7, 2], "y": [1.5, 0.25], "s": ["d", "b"]}, "subset": {"x": [2, 3], "y": [2.5], "s": ["a"]},
+           "other-labels": {"x": [3, 1, 20], "y": [0.5, 2.5, 9.5], "s": ["b", "c", "zz"]}}
     disjoint = {"x": [[9, 8], [20]], "y": [[7.5, 6.5], [-1.0]]}
     for how, cdim in (("stack", None), ("concatenate", "x"), ("concatenate", "y")):
         for align, sort in ((False, False), (True, False), (True, True)):
-            for r in (["equal"] if not align else ["equal", "permuted", "overlapping", "subset"]):
+            for r in (["equal", "other-labels", "permuted"] if not align else ["equal", "permuted", "overlapping", "subset"]):       # (without align, differing secondary axes must be refused)
                 for nfiles in (2, 3):
                     for keys in ((None, "str") if how == "stack" else (None,)):
                         others = []
@@ -583,10 +586,22 @@ def run_multi(case, tmp):
             kwk["keys"] = keys
             cl.add("multi:keys")
         differential(lambda: da.read_nc(list(paths), names, axis="stk", **kwk), lambda: da.stack_ds(list(singles), axis="stk", keys=exp_keys, **kw), what, sig, compare=same_dataset)
+        per_variable = lambda k: da.stack([s_[k] for s_ in singles], axis="stk", keys=exp_keys, **kw)
         cl.add("multi:stack")
     else:
         differential(lambda: da.read_nc(list(paths), names, axis=case["cdim"], **kw), lambda: da.concatenate_ds(list(singles), axis=case["cdim"], **kw), what, sig, compare=same_dataset)
+        per_variable = lambda k: da.concatenate([s_[k] for s_ in singles], axis=case["cdim"], **kw)
         cl.add("multi:concatenate")
+    # the statement's own wording: "equals reading each file and stacking / concatenating the results" - variable by variable with the
+    # DimArray-level joins (independent of the Dataset-level code that the multi-file reader itself uses)
+    whole = outcome(lambda: da.read_nc(list(paths), names, axis="stk" if case["how"] == "stack" else case["cdim"], **(kwk if case["how"] == "stack" else kw)))
+    for k in (names or list(singles[0].keys())):
+        one = outcome(lambda: per_variable(k))
+        if one[0] == "exc":
+            check(whole[0] == "exc", "multi-file-read-accepts-what-the-per-variable-join-refuses",
+                  {"what": what, "var": k, "per_variable": repr(one[1])[:200], "multi_file": str(core.brief(whole[1]))[:300] if whole[0] == "ok" else None}, sig)
+        elif whole[0] == "ok":
+            same(whole[1][k], one[1], what + " [variable %s against the DimArray-level join of the single reads]" % k, sig)
     if case["align"]:
         cl.add("multi:align")
     return {"classes": sorted(cl), "nontrivial": True}
